@@ -937,6 +937,16 @@ func (f *Frame) pureApply(c *Contract, fn *types.Func, recv Val, args []Val, st 
 			break
 		}
 		t := in.freeze(args[ai], sig.Params().At(i).Type(), st, f)
+		if _, isIface := f.resolve(sig.Params().At(i).Type()).Underlying().(*types.Interface); isIface && !isErrorType(sig.Params().At(i).Type()) {
+			if _, isPtr := args[ai].(PtrV); !isPtr && t.Sort != "Iface" && t.Sort != SErr {
+				// a concrete value passed where an interface is expected (spec-side call): box it the
+				// way the code-side conversion does
+				in.D.declareSort("Iface")
+				fn := "box_" + sanitize(t.Sort)
+				in.D.declareFun(fn, []string{t.Sort}, "Iface")
+				t = App(fn, "Iface", t)
+			}
+		}
 		ai++
 		ts = append(ts, t)
 		sorts = append(sorts, t.Sort)
